@@ -67,6 +67,9 @@ CHECKS = {
     "C19": ("fault_enumeration", "stateless depth-first enumeration of integrator outcome sequences (choice vectors with prefix replay) compiled against the rendered Solve/HandleError with a scripted mock integrator",
             "The rendered naunet.cpp (dense, sparse, odeint) is compiled with a mock integrator of y'=1, so the final state measures integrated time. Every sequence of outcomes within the pass alphabets - success, fail(flag, progress fraction) per CVode call at the offered positions of all five recovery levels, failing re-initialisation - is executed; on each: SUCCESS iff exactly dt was integrated and the last answer was a success, unrecoverable flags/failed re-init/level-5 failure give FAIL with the initial state logged, no integrator call after an unrecoverable flag, tout strictly increasing. Odeint: step counts around the budget and exceptions from the system function.",
             "The mock reproduces the CVODE calling convention (tret = time reached, yout advanced), not its numerics. Failure positions are restricted per pass (stated in the evidence); a capped pass is reported as such. cuSPARSE Solve is not covered.", "DESIGN.md §2 C19"),
+    "C20": ("exploration", "pairwise-exhaustive enumeration of init option values around a base configuration; field comparison of the written TOML and byte comparison of CLI vs API renderings in sibling fresh processes",
+            "Every init option alone over its value alphabet (lists with/without spaces, key:value and key=value tables, empty values, values containing the separator, prefixes, all legal and illegal solver triples) and all value pairs (quick: of the six interacting options; thorough: of all options) go through `naunet init --render`; the written naunet_config.toml must equal the requested description field by field and the rendered include/src/python trees must be byte-identical to the equivalent network rendered through the public API in a fresh process; bundled examples go through `naunet example`.",
+            "Reference reading of the option grammar is stated in the evidence. The ism example (network file not shipped) is not run.", "DESIGN.md §2 C20"),
 }
 
 NOT_YET = {
